@@ -335,7 +335,10 @@ where
     T::Value: quote::ToTokens,
 {
     let input = query.schema.get_input(input_id);
-    let constructor = Ident::new(&input.name, Span::call_site());
+    // The struct is named like in `generate_struct`: normalized, keywords escaped.
+    let normalized_name = options.normalization().input_name(input.name.as_str());
+    let safe_name = shared::keyword_replace(normalized_name);
+    let constructor = Ident::new(safe_name.as_ref(), Span::call_site());
     let fields: Vec<TokenStream> = input
         .fields
         .iter()
